@@ -418,6 +418,9 @@ impl ReferenceGlue<VerifVM> for VerifVM {
         let start = start_of(new_reference.to_raw_address().as_usize());
         unsafe {
             let h = read_hdr(start);
+            if world::trace_refs() {
+                eprintln!("REFTRACE clear_referent id={} at {:#x} old_slot0={:#x}", h.id, start, rd(slot_addr(start, 0)));
+            }
             world::on_clear_referent(&h, start);
             wr(slot_addr(start, 0), 0);
         }
@@ -433,6 +436,9 @@ impl ReferenceGlue<VerifVM> for VerifVM {
     }
     fn set_referent(reff: ObjectReference, referent: ObjectReference) {
         let start = start_of(reff.to_raw_address().as_usize());
+        if world::trace_refs() {
+            eprintln!("REFTRACE set_referent id={} at {:#x} referent={}", unsafe { read_hdr(start).id }, start, referent);
+        }
         unsafe { wr(slot_addr(start, 0), referent.to_raw_address().as_usize() as u64) };
     }
     fn enqueue_references(references: &[ObjectReference], tls: VMWorkerThread) {
